@@ -22,13 +22,16 @@
       in person formulas over group-level arguments); [inputs_wf]: every input array has one
       element per entity (what set_input checks).
     GroupSpec.v: [wf_pop]: every person belongs to a group of the simulation and has a role.
+    [roles_unique p]: a role declared unique (max = 1) is held by at most one member of
+    every group (what SimulationBuilder enforces).
 
     The expression language of Engine.v has the group operations sum / any / all /
-    nb_persons / project, with and without role; it has no position-dependent primitive
+    nb_persons / project, with and without role, and value_from_person for a unique role
+    ([GFromPerson]); it has no position-dependent primitive
     (value_nth_person, first_person, get_rank), so the second sentence of the property
     holds for every rule system of the model.  Every situation has at least one person
     (SimulationBuilder refuses a situation without persons; group.all raises on one). *)
-From Coq Require Import ZArith List Bool Arith String.
+From Coq Require Import ZArith List Bool Arith String Lia.
 From Verif Require Import Base Cal Period Np Group GroupSpec Engine EngineProofs Merge MergeProofs.
 Import ListNotations.
 Open Scope nat_scope.
@@ -40,6 +43,7 @@ Local Notation length := List.length.
 Theorem merge_independence : forall sy pp1 pp2 inp1 inp2 f1 f2 g1 g2,
   kinded sy = true ->
   wf_pop (grp pp1) -> wf_pop (grp pp2) -> g_entity (grp pp2) = g_entity (grp pp1) ->
+  roles_unique (grp pp1) -> roles_unique (grp pp2) ->
   interleaving f1 f2 (npersons (grp pp1)) (npersons (grp pp2)) = true ->
   interleaving g1 g2 (g_count (grp pp1)) (g_count (grp pp2)) = true ->
   inputs_wf sy pp1 inp1 -> inputs_wf sy pp2 inp2 -> map fst inp1 = map fst inp2 ->
@@ -59,7 +63,7 @@ Print Assumptions merge_independence.
 (** Reordering the persons and the groups of a situation permutes every result
     accordingly and changes no value (and no error). *)
 Theorem permutation_equivariance : forall sy pp inp sp sg,
-  kinded sy = true -> wf_pop (grp pp) -> 0 < npersons (grp pp) ->
+  kinded sy = true -> wf_pop (grp pp) -> 0 < npersons (grp pp) -> roles_unique (grp pp) ->
   is_perm_b sp (npersons (grp pp)) = true -> is_perm_b sg (g_count (grp pp)) = true ->
   inputs_wf sy pp inp ->
   forall v p,
@@ -73,6 +77,7 @@ Print Assumptions permutation_equivariance.
 Theorem merge_independence_calculate : forall sy pp1 pp2 inp1 inp2 f1 f2 g1 g2,
   ranked sy = true -> 1 <= max_loops sy -> kinded sy = true ->
   wf_pop (grp pp1) -> wf_pop (grp pp2) -> g_entity (grp pp2) = g_entity (grp pp1) ->
+  roles_unique (grp pp1) -> roles_unique (grp pp2) ->
   interleaving f1 f2 (npersons (grp pp1)) (npersons (grp pp2)) = true ->
   interleaving g1 g2 (g_count (grp pp1)) (g_count (grp pp2)) = true ->
   inputs_wf sy pp1 inp1 -> inputs_wf sy pp2 inp2 -> map fst inp1 = map fst inp2 ->
@@ -90,7 +95,7 @@ Print Assumptions merge_independence_calculate.
 
 Theorem permutation_equivariance_calculate : forall sy pp inp sp sg,
   ranked sy = true -> 1 <= max_loops sy -> kinded sy = true ->
-  wf_pop (grp pp) -> 0 < npersons (grp pp) ->
+  wf_pop (grp pp) -> 0 < npersons (grp pp) -> roles_unique (grp pp) ->
   is_perm_b sp (npersons (grp pp)) = true -> is_perm_b sg (g_count (grp pp)) = true ->
   inputs_wf sy pp inp ->
   forall sP s v p, Top sy (permute sp sg pp) (permute_inputs sy sp sg inp) sP -> Top sy pp inp s ->
@@ -140,13 +145,15 @@ Print Assumptions bools_interleaving.
 Definition ex_entity : gentity :=
   {| e_key := "household"%string;
      e_roles := [ {| r_key := "parent"%string; r_max := Some 2; r_subs := []; r_top := true |};
-                  {| r_key := "child"%string; r_max := None; r_subs := []; r_top := true |} ];
+                  {| r_key := "child"%string; r_max := None; r_subs := []; r_top := true |};
+                  {| r_key := "head"%string; r_max := Some 1; r_subs := []; r_top := true |} ];
      e_containing := [] |}.
+(** household 0: a head and a child; household 1: a parent, no head *)
 Definition ex_pop1 : popu :=
-  {| grp := {| g_entity := ex_entity; g_count := 2; g_ids := [0; 1; 0]; g_roles := [0; 0; 1] |} |}.
+  {| grp := {| g_entity := ex_entity; g_count := 2; g_ids := [0; 1; 0]; g_roles := [2; 0; 1] |} |}.
 (** the second situation has a trailing household without members *)
 Definition ex_pop2 : popu :=
-  {| grp := {| g_entity := ex_entity; g_count := 2; g_ids := [0; 0]; g_roles := [1; 0] |} |}.
+  {| grp := {| g_entity := ex_entity; g_count := 2; g_ids := [0; 0]; g_roles := [1; 2] |} |}.
 
 Definition jan : period := (Month, (2018, 1, 1)%Z, 1%Z).
 Definition ex_sys : sys :=
@@ -162,7 +169,10 @@ Definition ex_sys : sys :=
                  [((1, 1, 1)%Z,
                    EBin BAdd (EBin BAdd (EProject (Some 0) (EDep 1 PSame OPlain)) (EDep 0 PSame OPlain))
                      (EProject None (EAgg GAny None (EBin BLt (EConst 25) (EDep 0 PSame OPlain)))))]
-                 0%Z false false ];
+                 0%Z false false;
+               (* household: the head's v0 (0 without a head) *)
+               mk_var EGroup TInt Month None
+                 [((1, 1, 1)%Z, EAgg GFromPerson (Some 2) (EDep 0 PSame OPlain))] 0%Z false false ];
      params := []; switches := []; max_loops := 1 |}.
 Definition ex_inp1 : inputs := [((0, jan), [10; 20; 30]%Z)].
 Definition ex_inp2 : inputs := [((0, jan), [5; 7]%Z)].
@@ -176,6 +186,17 @@ Proof.
   destruct (key_eqb (v, p) (0, jan)) eqn:Ek; [|discriminate]. cbn in Hl. inversion Hl; subst b.
   unfold key_eqb in Ek. apply andb_prop in Ek as [Ev _]. cbn [fst] in Ev. apply Nat.eqb_eq in Ev. subst v.
   cbn in Hv. inversion Hv; subst x. exact Ha.
+Qed.
+
+Lemma ex_unique1 : roles_unique (grp ex_pop1).
+Proof.
+  intros r Hr g Hg. destruct r as [|[|[|r]]]; cbn in Hr; try discriminate; [|destruct r; discriminate].
+  destruct g as [|[|g]]; [vm_compute; lia|vm_compute; lia|cbn in Hg; lia].
+Qed.
+Lemma ex_unique2 : roles_unique (grp ex_pop2).
+Proof.
+  intros r Hr g Hg. destruct r as [|[|[|r]]]; cbn in Hr; try discriminate; [|destruct r; discriminate].
+  destruct g as [|[|g]]; [vm_compute; lia|vm_compute; lia|cbn in Hg; lia].
 Qed.
 
 Lemma ex_wf1 : wf_pop (grp ex_pop1).
@@ -197,7 +218,7 @@ Example merge_independence_applies : forall v p,
 Proof.
   intros v p.
   destruct (merge_independence ex_sys ex_pop1 ex_pop2 ex_inp1 ex_inp2 ex_f1 ex_f2 ex_g1 ex_g2
-              eq_refl ex_wf1 ex_wf2 eq_refl eq_refl eq_refl
+              eq_refl ex_wf1 ex_wf2 eq_refl ex_unique1 ex_unique2 eq_refl eq_refl
               (ex_inputs_wf ex_pop1 [10; 20; 30]%Z eq_refl) (ex_inputs_wf ex_pop2 [5; 7]%Z eq_refl) eq_refl v p) as [A B].
   split; [apply A|apply B]; cbn; repeat constructor.
 Qed.
@@ -211,9 +232,14 @@ Example merge_values :
   /\ sem ex_sys ex_pop2 ex_inp2 1 jan = Ok [7; 100]%Z
   /\ sem ex_sys (merge ex_f1 ex_f2 ex_g1 ex_g2 ex_pop1 ex_pop2)
          (merge_inputs ex_sys ex_f1 ex_f2 ex_g1 ex_g2 ex_inp1 ex_inp2) 2 jan
-     = Ok [121; 5; 31; 14; 143]%Z
-  /\ sem ex_sys ex_pop1 ex_inp1 2 jan = Ok [143; 121; 31]%Z
-  /\ sem ex_sys ex_pop2 ex_inp2 2 jan = Ok [5; 14]%Z.
+     = Ok [121; 5; 31; 7; 11]%Z
+  /\ sem ex_sys ex_pop1 ex_inp1 2 jan = Ok [11; 121; 31]%Z
+  /\ sem ex_sys ex_pop2 ex_inp2 2 jan = Ok [5; 7]%Z
+  /\ sem ex_sys (merge ex_f1 ex_f2 ex_g1 ex_g2 ex_pop1 ex_pop2)
+         (merge_inputs ex_sys ex_f1 ex_f2 ex_g1 ex_g2 ex_inp1 ex_inp2) 3 jan
+     = Ok [7; 0; 0; 10]%Z
+  /\ sem ex_sys ex_pop1 ex_inp1 3 jan = Ok [10; 0]%Z
+  /\ sem ex_sys ex_pop2 ex_inp2 3 jan = Ok [7; 0]%Z.
 Proof. vm_compute. repeat split. Qed.
 
 (** errors too: an unknown variable, a period of the wrong unit *)
@@ -230,15 +256,17 @@ Example permutation_applies : forall v p,
 Proof.
   intros v p.
   apply (permutation_equivariance ex_sys ex_pop1 ex_inp1 [2; 0; 1] [1; 0] eq_refl ex_wf1);
-    [cbn; repeat constructor|reflexivity|reflexivity|apply ex_inputs_wf; reflexivity].
+    [cbn; repeat constructor|exact ex_unique1|reflexivity|reflexivity|apply ex_inputs_wf; reflexivity].
 Qed.
 
 Example permutation_values :
   sem ex_sys (permute [2; 0; 1] [1; 0] ex_pop1) (permute_inputs ex_sys [2; 0; 1] [1; 0] ex_inp1) 2 jan
-  = Ok [121; 31; 143]%Z
+  = Ok [121; 31; 11]%Z
   /\ sem ex_sys (permute [2; 0; 1] [1; 0] ex_pop1) (permute_inputs ex_sys [2; 0; 1] [1; 0] ex_inp1) 1 jan
-  = Ok [101; 132]%Z.
-Proof. vm_compute. split; reflexivity. Qed.
+  = Ok [101; 132]%Z
+  /\ sem ex_sys (permute [2; 0; 1] [1; 0] ex_pop1) (permute_inputs ex_sys [2; 0; 1] [1; 0] ex_inp1) 3 jan
+  = Ok [0; 10]%Z.
+Proof. vm_compute. repeat split; reflexivity. Qed.
 
 (** the machine instance: fresh simulations holding the inputs *)
 Example machine_applies : forall v p,
@@ -249,7 +277,7 @@ Example machine_applies : forall v p,
 Proof.
   intros v p.
   refine (proj1 (merge_independence_calculate ex_sys ex_pop1 ex_pop2 ex_inp1 ex_inp2 ex_f1 ex_f2 ex_g1 ex_g2
-              eq_refl (le_n 1) eq_refl ex_wf1 ex_wf2 eq_refl eq_refl eq_refl
+              eq_refl (le_n 1) eq_refl ex_wf1 ex_wf2 eq_refl ex_unique1 ex_unique2 eq_refl eq_refl
               (ex_inputs_wf ex_pop1 [10; 20; 30]%Z eq_refl) (ex_inputs_wf ex_pop2 [5; 7]%Z eq_refl) eq_refl _ _
               _ _ (init ex_inp2) v p (Top_init _ _ _) (Top_init _ _ _) (Top_init _ _ _)));
     cbn; repeat constructor.
